@@ -201,6 +201,10 @@ def tiered_ranges(numtype, intsize, signed, start, end, shift_step,
         if endexcl:
             end -= 1
 
+    if start > end:
+        # An exclusive bound at the edge of the domain leaves nothing
+        return ()
+
     if not shift_step:
         return ((start, end, 0),)
 
